@@ -45,6 +45,7 @@ type World struct {
 	indexByContainer    bool
 	constGlobals        map[*ssa.Global]*ssa.Const
 	parametric          map[*ssa.Function]bool
+	reachMemo           map[[2]*ssa.Function]bool
 }
 
 func repoDir() string {
